@@ -182,6 +182,10 @@ def check_routing(fx, R):
                 ok = g == w
             if not ok:
                 bad.append((k, g))
+        unread = [k for k, g in bad if g is None or not isinstance(g, (sp.Basic, sp.MatrixBase)) or (isinstance(want[k], (list, sp.MatrixBase)) and not isinstance(g, sp.MatrixBase))]
+        if unread:
+            R.undecided('K2', fname, 'component(s) %s of the output not readable after the function' % unread)
+            continue
         R.check(not bad, 'K2', fname, '%s does not keep %s: %s' % (fname, what, [(k, str(g)[:120]) for k, g in bad]), 'keeps ' + what, fx.rel(f['loc']), 'E-SIB')
         if len(fv) == 1:
             R.used(fv[0])
